@@ -180,6 +180,45 @@ def check_pointers(ctx, M, dec, w, raw, case):
                               'digest_covered_part / digest_value_buf differ from the strict reading', case)
 
 
+def check_ptrs_model(ctx, M, dec, w, raw, case):
+    """Correspondence of the REPORTED pointers (signature_covered_part, signature_value_buf, digest_covered_part,
+    digest_value_buf) with Model/PacketPtrs.v (the walk over the reflected declared order, markers included), on
+    every packet the library accepts -- canonical or not."""
+    try:
+        _, a = TG.read_num(w, 0)
+        _, b = TG.read_num(w, a)
+    except Exception:   # noqa
+        return
+    v = bytes(w[a + b:])
+    if dec.op == 4:
+        from ndn.app_support import security_v2 as SV
+        mk = {}
+        try:
+            SV.CertificateV2Value.parse(v, mk)
+        except Exception:   # noqa
+            return
+        cov = SV.CertificateV2Value._sig_cover_part.get_arg(mk) or []
+        sv = SV.CertificateV2Value._sig_value_buf.get_arg(mk)
+        impl = [[bytes(x) for x in cov], [] if sv is None else [bytes(sv)], [], []]
+        m = M([36, v])
+    else:
+        ptrs = raw[3]
+        impl = [[bytes(x) for x in (ptrs.signature_covered_part or [])],
+                [] if ptrs.signature_value_buf is None else [bytes(ptrs.signature_value_buf)],
+                [bytes(x) for x in (ptrs.digest_covered_part or [])],
+                [] if ptrs.digest_value_buf is None else [bytes(ptrs.digest_value_buf)]]
+        m = M([34 if dec.op == 1 else 35, v])
+    if is_err(m):
+        ctx.disagree(dec.name + '.ptrs', 'pointer model rejects, implementation accepts', case, m, impl)
+        return
+    mm = [[bytes(x) for x in m[1][0]], [bytes(x) for x in m[1][1]], [bytes(x) for x in m[1][2]], [bytes(x) for x in m[1][3]]]
+    # blocks are compared as concatenations (how the list is cut into blocks is not observable by a verifier)
+    flat = lambda p: [b''.join(p[0]), p[1], b''.join(p[2]), p[3]]     # noqa
+    if flat(mm) != flat(impl):
+        ctx.disagree(dec.name + '.ptrs', 'reported pointers differ from Model/PacketPtrs.v', case, flat(mm), flat(impl))
+    ctx.stat('ptrs.model-compared')
+
+
 def check_wire(ctx, M, dec, w, origin):
     raw = None
     try:
@@ -202,6 +241,8 @@ def check_wire(ctx, M, dec, w, origin):
             ctx.disagree(dec.name, 'implementation rejects, model accepts', case, mv, r[1])
         elif mv != r[1]:
             ctx.disagree(dec.name, 'different fields', case, mv, r[1])
+    if r[0] == 'ok' and dec.op in (1, 2, 4):
+        check_ptrs_model(ctx, M, dec, w, raw, case)
     # oracle
     if r[0] == 'err' and not r[2]:
         ctx.violation(dec.name, 'undocumented-exception:' + r[1], f'raises {r[1]}, not a documented decoding error', case)
